@@ -1,0 +1,26 @@
+//go:build verif
+
+// Package verifhook provides named yield points for external verification
+// harnesses. With the "verif" build tag a harness can install a handler that is
+// called at every point (to record the order of events and to yield).
+package verifhook
+
+import "sync/atomic"
+
+var handler atomic.Pointer[func(string)]
+
+// SetHandler installs (or, with nil, removes) the function called at every point.
+func SetHandler(f func(string)) {
+	if f == nil {
+		handler.Store(nil)
+		return
+	}
+	handler.Store(&f)
+}
+
+// Point marks a place where a verification build may observe or delay execution.
+func Point(name string) {
+	if h := handler.Load(); h != nil {
+		(*h)(name)
+	}
+}
